@@ -10,6 +10,8 @@
 //	          life.<T>.<G>        proxy.SetTimeout(T ms); the client pauses G ms before every request (G << T, total lifetime > T)
 //	exchange  X:<METHOD>:<o|a>:<hex path?query>:<0|1 http/1.0>:<hdrs>:<len>.<seed>.<digest>:<c|k<seed>|n>
 //	           :<status>:<0|1 http/1.0>:<hdrs>:<[z]len>.<seed>.<digest>.<bytes on the wire>:<c|k<seed>|x|n>   (z: gzip of the generated body)
+//	           [:a | :e<k>]   how the origin reads the request body: a = all of it before answering (default),
+//	                          e<k> = it answers after k bytes of the body (e0: on the head alone) and reads the rest afterwards
 //	hdrs      hexname=hexvalue,...  or -   (the literal text ORIGIN inside a value stands for the origin's host:port)
 //
 // OUT tokens:  Q:<METHOD>:<hex target>:<hdrs lower-cased names>:<len>.<digest>   one per request the origin received
@@ -29,7 +31,6 @@ import (
 	"os"
 	"strconv"
 	"strings"
-	"sync"
 	"sync/atomic"
 	"time"
 
@@ -56,6 +57,7 @@ type exch struct {
 	SBLen  int
 	SBSeed uint64
 	RsF    string // c | k<seed> | x | n
+	Rd     int    // -1: the origin reads the whole request before answering; k >= 0: it answers after k body bytes
 }
 
 func (e *exch) reqBody() []byte { return p1x.GenBody(e.BLen, e.BSeed) }
@@ -86,7 +88,11 @@ func (e *exch) token() string {
 		z = "z"
 	}
 	rb, sb := e.reqBody(), e.resBody()
-	return fmt.Sprintf("X:%s:%s:%s:%d:%s:%d.%d.%d:%s:%d:%d:%s:%s%d.%d.%d.%d:%s",
+	rd := ""
+	if e.Rd >= 0 {
+		rd = fmt.Sprintf(":e%d", e.Rd)
+	}
+	return fmt.Sprintf("X:%s:%s:%s:%d:%s:%d.%d.%d:%s:%d:%d:%s:%s%d.%d.%d.%d:%s"+rd,
 		e.Method, form, hx.HexS(e.PQ)[1:], b2i(e.V10), p1x.HdrTok(e.Hdrs, false), len(rb), e.BSeed, p1x.Digest(rb), e.RqF,
 		e.Status, b2i(e.SV10), p1x.HdrTok(e.SHdrs, false), z, e.SBLen, e.SBSeed, p1x.Digest(sb), len(sb), e.RsF)
 }
@@ -100,10 +106,17 @@ func b2i(b bool) int {
 
 func parseExch(tok string) (*exch, error) {
 	f := strings.Split(tok, ":")
-	if len(f) != 13 || f[0] != "X" {
+	if (len(f) != 13 && len(f) != 14) || f[0] != "X" {
 		return nil, fmt.Errorf("bad exchange token (%d fields)", len(f))
 	}
-	e := &exch{Method: f[1], Abs: f[2] == "a", V10: f[4] == "1", RqF: f[7], SV10: f[9] == "1", RsF: f[12]}
+	e := &exch{Method: f[1], Abs: f[2] == "a", V10: f[4] == "1", RqF: f[7], SV10: f[9] == "1", RsF: f[12], Rd: -1}
+	if len(f) == 14 && strings.HasPrefix(f[13], "e") {
+		k, err := strconv.Atoi(f[13][1:])
+		if err != nil || k < 0 {
+			return nil, fmt.Errorf("bad read mode")
+		}
+		e.Rd = k
+	}
 	pq, err := hx.UnHex("x" + f[3])
 	if err != nil {
 		return nil, err
@@ -278,11 +291,37 @@ func runCase(in []string) (out []string) {
 	}
 
 	served := 0
-	origin, err := p1x.NewOrigin(false, nil)
+	// An origin that answers before it has read the body only matters when the
+	// rest of the upload cannot simply sit in socket buffers. Uploads of many
+	// MiB do that by themselves; for smaller ones the two sockets between
+	// proxy and origin get small buffers (origin: listening socket option;
+	// proxy: through the public SetDial).
+	early, smallbuf := false, false
+	for _, e := range exs {
+		if e.Rd >= 0 {
+			early = true
+			if e.BLen < 8<<20 {
+				smallbuf = true
+			}
+		}
+	}
+	rcv := 0
+	if smallbuf {
+		rcv = 4096
+	}
+	origin, err := p1x.NewOriginBuf(false, rcv, nil)
 	if err != nil {
 		return []string{"ENV:listen"}
 	}
 	defer origin.Close()
+	if early {
+		origin.Early = func(m *p1x.Msg) int {
+			if served < len(exs) && m.Target != sentinel {
+				return exs[served].Rd
+			}
+			return -1
+		}
+	}
 	origin.SetHandler(func(idx int, m *p1x.Msg) p1x.Action {
 		if m.Target == sentinel {
 			return p1x.Action{Bytes: []byte("HTTP/1.1 200 OK\r\nContent-Length: 2\r\nConnection: close\r\n\r\nok"), Close: true}
@@ -300,6 +339,16 @@ func runCase(in []string) (out []string) {
 		return []string{"ENV:listen"}
 	}
 	proxy := martian.NewProxy()
+	if smallbuf {
+		d := &net.Dialer{Timeout: 30 * time.Second, KeepAlive: 30 * time.Second}
+		proxy.SetDial(func(network, addr string) (net.Conn, error) {
+			c, err := d.Dial(network, addr)
+			if tc, ok := c.(*net.TCPConn); ok && err == nil {
+				tc.SetWriteBuffer(4096)
+			}
+			return c, err
+		})
+	}
 	var gap time.Duration
 	if strings.HasPrefix(mode, "life.") {
 		f := strings.Split(mode, ".")
@@ -492,6 +541,16 @@ func runRobust(in []string) []string {
 
 func main() {
 	mlog.SetLevel(mlog.Silent)
+	for i, a := range os.Args {
+		if a == "-extra" && i+1 < len(os.Args) && os.Args[i+1] == "worker" {
+			if v := os.Getenv("VERIF_C01_IDLE_MS"); v != "" {
+				ms, _ := strconv.Atoi(v)
+				idle = time.Duration(ms) * time.Millisecond
+			}
+			workerMain()
+			return
+		}
+	}
 	cfg := hx.ParseFlags()
 	defer cfg.Close()
 	if v := os.Getenv("VERIF_C01_IDLE_MS"); v != "" {
@@ -510,24 +569,7 @@ func main() {
 	if !replayOnly {
 		cases = append(cases, generate(cfg)...)
 	}
-	outs := make([][]string, len(cases))
-	workers := 12
-	var wg sync.WaitGroup
-	next := make(chan int)
-	for w := 0; w < workers; w++ {
-		wg.Add(1)
-		go func() {
-			defer wg.Done()
-			for i := range next {
-				outs[i] = runRobust(cases[i].In)
-			}
-		}()
-	}
-	for i := range cases {
-		next <- i
-	}
-	close(next)
-	wg.Wait()
+	outs := runAll(cases)
 	for i, c := range cases {
 		cfg.Emit(hx.Case{Name: c.Name, In: c.In, Out: outs[i]})
 	}
